@@ -33,14 +33,18 @@ Definition deser_AnamContinuous : reader acont :=
    _tableWrite writes the first getNDisc() values of the discretisation; setDisc keeps what is read. *)
 Record anam_empirical := {
   ae_cont : acont; ae_sigma2e : dbl; ae_z : list dbl; ae_y : list dbl; ae_dilution : bool; ae_gaussian : bool }.
-Definition ser_AnamEmpirical (o : anam_empirical) : list record :=
+(* [tail]: dialect in which the two flags are appended at the end of the file *)
+Definition ser_AnamEmpirical (tail : bool) (o : anam_empirical) : list record :=
   ser_AnamContinuous (ae_cont o)
   ++ [ r_int "Number of Discretization lags" (lenZ (ae_z o)); r_dbl "additional variance" (ae_sigma2e o);
-       r_vdbl "Z Values" (ae_z o); r_vdbl "Y Values" (firstn (length (ae_z o)) (ae_y o)) ].
-Definition deser_AnamEmpirical : reader anam_empirical :=
+       r_vdbl "Z Values" (ae_z o); r_vdbl "Y Values" (firstn (length (ae_z o)) (ae_y o)) ]
+  ++ (if tail then [ r_int "Dilution flag" (b2z (ae_dilution o)); r_int "Gaussian dilution flag" (b2z (ae_gaussian o)) ] else []).
+Definition deser_AnamEmpirical (tail : bool) : reader anam_empirical :=
   c <- deser_AnamContinuous ;; ndisc <- rd_int ;; s2 <- rd_dbl ;;
   z <- rd_vdbl ndisc ;; y <- rd_vdbl ndisc ;;
-  ret {| ae_cont := c; ae_sigma2e := s2; ae_z := z; ae_y := y; ae_dilution := false; ae_gaussian := true |}.
+  fl <- (if tail then eod <- rd_eod ;; (if eod : bool then ret (false, true) else d <- rd_int ;; g <- rd_int ;; ret (z2b d, z2b g))
+         else ret (false, true)) ;;
+  ret {| ae_cont := c; ae_sigma2e := s2; ae_z := z; ae_y := y; ae_dilution := fst fl; ae_gaussian := snd fl |}.
 
 (* ====================================================================== MeshETurbo *)
 (* grid (nx, dx, x0, rotation matrix as Grid::getRotMat() gives it), polarisation, storing mode of the two indirections,
